@@ -642,6 +642,7 @@ def run_batch(spec):
             continue
         finally:
             signal.alarm(0)
+        common.release_tealer_caches()
         out["cases"] += 1
         srcs = {k: T.render(v[0], v[1])[0] for k, v in cfg["contracts"].items()}
         if cross:
